@@ -75,6 +75,7 @@ fn main_wrap() -> Result<()> {
 
 fn main() {
     if let Err(e) = main_wrap() {
-        println!("{}: {}", "Error".red().bold(), e)
+        println!("{}: {}", "Error".red().bold(), e);
+        std::process::exit(1);
     }
 }
